@@ -308,6 +308,8 @@ type stateProgress struct {
 	results chan *BuildResult
 	// Internal result stream, used to intermediate them for the cycle checker.
 	internalResults chan *BuildResult
+	// Closed when forwardResults exits.
+	forwarderDone chan struct{}
 	// The cycle checker itself.
 	cycleDetector cycleDetector
 }
@@ -424,6 +426,16 @@ func (state *BuildState) Stop() {
 // CloseResults closes the result channels.
 func (state *BuildState) CloseResults() {
 	state.progress.cycleDetector.Stop()
+	// Wait for everything logged so far to be forwarded, otherwise closing the channel drops it.
+	flushed := make(chan struct{})
+	select {
+	case state.progress.internalResults <- &BuildResult{flushed: flushed}:
+		select {
+		case <-flushed:
+		case <-state.progress.forwarderDone:
+		}
+	case <-state.progress.forwarderDone:
+	}
 	state.progress.mutex.Lock()
 	defer state.progress.mutex.Unlock()
 	if state.progress.results != nil {
@@ -634,6 +646,7 @@ func (state *BuildState) forwardResults() {
 			// outward results channel is closed.
 			log.Debug("%s", r)
 		}
+		close(state.progress.forwarderDone)
 	}()
 	activeTargets := map[*BuildTarget]struct{}{}
 	// Persist this one timer throughout so we don't generate bazillions of them.
@@ -657,6 +670,11 @@ func (state *BuildState) forwardResults() {
 			}
 		} else {
 			result = <-state.progress.internalResults
+		}
+		if result.flushed != nil {
+			// Marker from CloseResults; everything logged before it has been passed on.
+			close(result.flushed)
+			continue
 		}
 		if target := result.target; target != nil {
 			if result.Status.IsActive() {
@@ -1484,6 +1502,7 @@ func NewBuildState(config *Configuration) *BuildState {
 			pendingPackages: cmap.New[packageKey, chan struct{}](cmap.DefaultShardCount, hashPackageKey),
 			packageWaits:    cmap.New[packageKey, chan struct{}](cmap.DefaultShardCount, hashPackageKey),
 			internalResults: make(chan *BuildResult, 1000),
+			forwarderDone:   make(chan struct{}),
 			cycleDetector:   cycleDetector{graph: graph},
 			originalTargets: NewTargetSet(),
 		},
@@ -1526,6 +1545,8 @@ type BuildResult struct {
 	Description string
 	// Test results
 	Tests TestSuite
+	// Set only on the marker CloseResults sends; closed once everything before it is forwarded.
+	flushed chan struct{}
 }
 
 // A BuildResultStatus represents the status of a target when we log a build result.
